@@ -49,6 +49,8 @@ pub ghost struct NodeSt {
     pub number_facts_rules: int,
     pub operator_tail: Option<Operator>,
     pub ss: SubstitutionSet<'static>,
+    // the knowledge base the node searches (every node of a query is made with the same one)
+    pub kb: KnowledgeBase,
     pub parent: Option<int>,
     // ghost: distance from the base node of the query (a node's children are one deeper)
     pub depth: nat,
@@ -240,6 +242,7 @@ pub fn nd_goal<'a>(n: &Rc<RefCell<SolutionNode<'a>>>, Tracked(h): Tracked<&Heap>
 #[verifier::external_body]
 pub fn nd_kb<'a>(n: &Rc<RefCell<SolutionNode<'a>>>, Tracked(h): Tracked<&Heap>) -> (r: &'a KnowledgeBase)
     requires held(*h, nid(*n)),
+    ensures *r == h.st[nid(*n)].kb,
 { unimplemented!() }
 #[verifier::external_body]
 pub fn nd_ss<'a>(n: &Rc<RefCell<SolutionNode<'a>>>, Tracked(h): Tracked<&Heap>) -> (r: Rc<SubstitutionSet<'a>>)
@@ -338,7 +341,7 @@ pub open spec fn state_of<'a>(x: SolutionNode<'a>, d: nat, cd: nat) -> NodeSt {
         goal: *x.goal, no_backtracking: x.no_backtracking, more_solutions: x.more_solutions,
         child: link_of(x.child), head_sn: link_of(x.head_sn), tail_sn: link_of(x.tail_sn),
         rule_index: x.rule_index as int, number_facts_rules: x.number_facts_rules as int,
-        operator_tail: x.operator_tail, ss: *x.ss, parent: link_of(x.parent_node), depth: d, call_depth: cd, done: false, on_chain: false,
+        operator_tail: x.operator_tail, ss: *x.ss, kb: *x.kb, parent: link_of(x.parent_node), depth: d, call_depth: cd, done: false, on_chain: false,
     }
 }
 #[verifier::external_body]
